@@ -61,10 +61,81 @@ def cases(tier, seed):
             for e1 in ENVS:
                 for e2 in ENVS:
                     out.append({"kind": "envs", "out": out_pkg, "postprocess": pp, "first_env": e1, "second_env": e2})
+    for dr in DRIFTS:
+        for f in ("client.py", "models/pet.py", "endpoints/pets.py", "core/http_transport.py", "mocks/mock_client.py", "__init__.py"):
+            out.append({"kind": "drift", "drift": dr, "file": f})
     return out
 
 
 ENVS = ["plain", "tmp-symlink", "root-symlink", "tmp+root-symlink"]
+# (a tree that differs only in its line terminators - CRLF checkout - is read as equal by the generator; that is not demanded to fail)
+DRIFTS = ["append-comment", "indent-only", "blank-lines-only", "trailing-space", "inner-space", "one-character", "delete-line"]
+
+
+def apply_drift(kind, path):
+    src = open(path, newline="").read()
+    lines = src.split("\n")
+    idx = next((i for i, l in enumerate(lines) if l.startswith("        ") and l.strip() and not l.strip().startswith(("#", '"', "'"))), None)
+    if kind == "append-comment":
+        new = src + "\n# edited by hand\n"
+    elif kind == "indent-only":
+        if idx is None:
+            return False
+        lines[idx] = lines[idx][4:]          # the statement moves one block outwards: same text, other meaning
+        new = "\n".join(lines)
+    elif kind == "blank-lines-only":
+        new = "\n".join(l for l in lines if l.strip()) + "\n"
+    elif kind == "trailing-space":
+        if idx is None:
+            return False
+        lines[idx] = lines[idx] + "  "
+        new = "\n".join(lines)
+    elif kind == "inner-space":
+        if idx is None:
+            return False
+        lines[idx] = lines[idx].replace(" = ", "  =  ", 1) if " = " in lines[idx] else lines[idx].replace(" ", "  ", 1)
+        new = "\n".join(lines)
+    elif kind == "one-character":
+        i = src.find("class ")
+        new = src[:i + 6] + ("X" if src[i + 6] != "X" else "Y") + src[i + 7:] if i >= 0 else src + "x"
+    elif kind == "delete-line":
+        if idx is None:
+            return False
+        del lines[idx]
+        new = "\n".join(lines)
+    elif kind == "crlf":
+        new = src.replace("\n", "\r\n")
+    else:
+        raise HarnessError(kind)
+    if new == src:
+        return False
+    with open(path, "w", newline="") as f:
+        f.write(new)
+    return True
+
+
+def run_drift(case):
+    """an up-to-date tree in which ONE generated file was changed by hand in a small way: the non-force run must notice and touch nothing"""
+    doc = docs.get("petstore")
+    label = f"drift|{case['drift']}|{case['file']}"
+    found = []
+    with sandbox.scratch("c09d-") as d:
+        root = os.path.join(d, "proj")
+        files, err = sandbox.generate(doc, root, output_package="cli", force=True)
+        if err is not None:
+            raise HarnessError(f"drift: generation failed {err}")
+        path = os.path.join(root, "cli", case["file"])
+        if not os.path.exists(path) or not apply_drift(case["drift"], path):
+            return {"findings": [], "outcome": "drift:not-applicable", "nontrivial": None}
+        before = sandbox.snapshot(root)
+        files, err = sandbox.generate(doc, root, output_package="cli", force=False, reset=False)
+        after = sandbox.snapshot(root)
+        if err is None:
+            found.append({"sig": f"C09|stale|non-force run reports success although a generated file was changed by hand [{case['drift']}]", "key": label, "msg": label})
+        if before != after:
+            found.append({"sig": "C09|stale|non-force run over a drifted tree touches it", "key": label, "msg": label})
+    return {"findings": found, "evals": 1, "nontrivial": label, "outcome": "drift:" + ("finding" if found else "ok"), "states": 2, "transitions": 1, "validated": 1,
+            "sample": {"case": label}}
 
 
 def run_envs(case):
@@ -330,4 +401,6 @@ def run_case(case):
         return run_procs(case)
     if case["kind"] == "envs":
         return run_envs(case)
+    if case["kind"] == "drift":
+        return run_drift(case)
     return run_hist(case)
